@@ -176,10 +176,17 @@ main(void)
 	c05_init_symbolic(&the_ctx);
 	t0n_dpi = ND_U32();
 	t0n_rpi = ND_U32();
-	c05_env(&the_ctx);
-#ifdef C05_EFFECT
+#ifndef C05_EFFECT
+	ASSUME(t0n_dpi <= T0N_NDP && t0n_rpi <= T0N_NRP);
+	/* E4: at every call site the depth leaves room for the native's (proved) need and peak */
+	ASSUME(t0n_dpi >= C05_NEED && t0n_dpi <= T0N_NDP - C05_PEAK);
+#else
 	ASSUME(t0n_dpi >= 9 && t0n_dpi <= T0N_NDP - 9);
 	ASSUME(t0n_rpi >= 9 && t0n_rpi <= T0N_NRP - 9);
+#endif
+	c05_env_common(&the_ctx);
+	c05_env(&the_ctx);
+#ifdef C05_EFFECT
 #ifdef C05_LIT
 	/* value-dependent stack word: measured for one literal top-of-stack value */
 	ASSUME(T0N_STK(&the_ctx)->dp_stack[t0n_dpi - 1] == (uint32_t)(C05_LIT));
@@ -189,6 +196,7 @@ main(void)
 	{
 		uint32_t d0 = t0n_dpi, r0 = t0n_rpi;
 		uint32_t top0 = T0N_STK(&the_ctx)->dp_stack[t0n_dpi - 1];
+		uint32_t second0 = T0N_STK(&the_ctx)->dp_stack[t0n_dpi - 2];
 		t0n_co = 0;
 		C05_DISPATCH(&the_ctx, OP);
 		{
@@ -207,6 +215,10 @@ main(void)
 			__CPROVER_assert(t0n_co != 0, "EFF noco");
 			__CPROVER_assert(!t0n_co || C05_ERRF(&the_ctx) != 0, "EFF coerr");
 			__CPROVER_assert(!t0n_co || C05_ERRF(&the_ctx) != 0 || top0 == 0, "EFF coerr_nz");
+#ifdef C05_SPEC_OVER
+			__CPROVER_assert(t0n_dpi == d0 + 1 && T0N_STK(&the_ctx)->dp_stack[d0] == second0 && T0N_STK(&the_ctx)->dp_stack[d0 - 1] == top0
+				&& T0N_STK(&the_ctx)->dp_stack[d0 - 2] == second0, "SPEC over");
+#endif
 #ifdef C05_SPEC_DUP
 			__CPROVER_assert(t0n_dpi == d0 + 1 && T0N_STK(&the_ctx)->dp_stack[d0] == top0 && T0N_STK(&the_ctx)->dp_stack[d0 - 1] == top0, "SPEC dup");
 #endif
@@ -214,9 +226,6 @@ main(void)
 		}
 	}
 #else
-	ASSUME(t0n_dpi <= T0N_NDP && t0n_rpi <= T0N_NRP);
-	/* E4: at every call site the depth leaves room for the native's (proved) need and peak */
-	ASSUME(t0n_dpi >= C05_NEED && t0n_dpi <= T0N_NDP - C05_PEAK);
 	c05_precond(&the_ctx, OP);
 	t0n_co = 0;
 	C05_DISPATCH(&the_ctx, OP);
